@@ -36,6 +36,7 @@ type Run struct {
 
 	clients map[int]*client
 	invAt   map[[2]int]int64 // (script id, op index) -> invocation time
+	eng     *engines
 }
 
 type client struct {
@@ -378,6 +379,10 @@ func (r *Run) doOp(sc *plan.Script, idx int, op *plan.Op, rec *plan.Rec) {
 	ctx := context.Background()
 	if strings.HasPrefix(op.K, "ctl.") {
 		r.doCtl(sc, op, rec)
+		return
+	}
+	if strings.HasPrefix(op.K, "eng.") {
+		r.doEngine(op, rec)
 		return
 	}
 	c, err := r.client(sc)
